@@ -43,6 +43,7 @@ SessionObject::SessionObject(SessionObjectStore* inParent, CK_SLOT_ID inSlotID, 
 	objectMutex = MutexFactory::i()->getMutex();
 	valid = (objectMutex != NULL);
 	parent = inParent;
+	inTransaction = false;
 }
 
 // Destructor
@@ -295,21 +296,87 @@ void SessionObject::discardAttributes()
 		delete i->second;
 		i->second = NULL;
 	}
+
+	cleanUp = savedAttributes;
+	savedAttributes.clear();
+	inTransaction = false;
+
+	for (std::map<CK_ATTRIBUTE_TYPE, OSAttribute*>::iterator i = cleanUp.begin(); i != cleanUp.end(); i++)
+	{
+		delete i->second;
+	}
 }
 
-// These functions are just stubs for session objects
+// Start a transaction: remember the current attributes
 bool SessionObject::startTransaction(Access)
 {
+	MutexLocker lock(objectMutex);
+
+	std::map<CK_ATTRIBUTE_TYPE, OSAttribute*> cleanUp = savedAttributes;
+	savedAttributes.clear();
+
+	for (std::map<CK_ATTRIBUTE_TYPE, OSAttribute*>::iterator i = cleanUp.begin(); i != cleanUp.end(); i++)
+	{
+		delete i->second;
+	}
+
+	for (std::map<CK_ATTRIBUTE_TYPE, OSAttribute*>::iterator i = attributes.begin(); i != attributes.end(); i++)
+	{
+		if (i->second == NULL)
+		{
+			continue;
+		}
+
+		savedAttributes[i->first] = new OSAttribute(*i->second);
+	}
+
+	inTransaction = true;
+
 	return true;
 }
 
+// Commit a transaction: forget the remembered attributes
 bool SessionObject::commitTransaction()
 {
+	MutexLocker lock(objectMutex);
+
+	std::map<CK_ATTRIBUTE_TYPE, OSAttribute*> cleanUp = savedAttributes;
+	savedAttributes.clear();
+	inTransaction = false;
+
+	for (std::map<CK_ATTRIBUTE_TYPE, OSAttribute*>::iterator i = cleanUp.begin(); i != cleanUp.end(); i++)
+	{
+		delete i->second;
+	}
+
 	return true;
 }
 
+// Abort a transaction: restore the remembered attributes
 bool SessionObject::abortTransaction()
 {
+	MutexLocker lock(objectMutex);
+
+	if (!inTransaction)
+	{
+		return true;
+	}
+
+	std::map<CK_ATTRIBUTE_TYPE, OSAttribute*> cleanUp = attributes;
+	attributes = savedAttributes;
+	savedAttributes.clear();
+	inTransaction = false;
+
+	for (std::map<CK_ATTRIBUTE_TYPE, OSAttribute*>::iterator i = cleanUp.begin(); i != cleanUp.end(); i++)
+	{
+		if (i->second == NULL)
+		{
+			continue;
+		}
+
+		delete i->second;
+	}
+
 	return true;
 }
 
